@@ -33,6 +33,12 @@ Table 4 `fileDecisionAppends`: a comment appended to a list that is also tested 
 Table 5 `writeVersionReads`: every read of `config.write_version` (the version text set from --write-version /
   --nowrite-version): 0 inside util.write_output_file (second header line, a comment: theorem
   Shroud.Lines.wof_header_then_body of Props/C13.lean) or main.dump_jsonfile (JSON log), 9 anywhere else.
+Table 6 `commentDynamicParts`: the line writer folds a line at TAB / FORM FEED and starts a new one at a newline, and
+  the continuation is not a comment; so every dynamic part spliced into a guarded comment template (format field,
+  operand of +, argument of % / .format) is listed: 0 when it is on the SAFE lists below (identifiers, statement
+  names, printed declarations without continuation hints, user text that the enclosing function first strips of
+  tab / form feed and splits at newlines - that is checked on the AST), 9 otherwise; a literal template that itself
+  contains a tab, form feed or carriage return is 9 too.
 The Lean theorem says that no row of any table has class 9.
 
 Assumption recorded by the check (not provable from the AST): dynamic text spliced into a comment template
@@ -47,7 +53,7 @@ from tools import common
 OPTS = ["debug", "debug_index", "doxygen", "literalinclude", "show_splicer_comments", "write_version", "emitter"]
 OPT_ATTRS = set(OPTS[:6])
 EMITTERS = {"write_doxygen", "write_doxygen_file", "document_stmts"}
-PURE_METHODS = {"gen_decl", "join", "format", "split", "pop", "endswith", "startswith", "keys", "get"}
+PURE_METHODS = {"gen_decl", "join", "format", "split", "replace", "pop", "endswith", "startswith", "keys", "get"}
 PURE_FUNCS = {"str", "len", "dict", "wformat", "sorted"}
 LEADER_ATTRS = {"comment", "doxygen_begin", "doxygen_cont", "doxygen_end"}     # self.<x>
 LEADER_NAMES = {"cstart": "// start ", "cend": "// end ", "fstart": "! start ", "fend": "! end "}
@@ -91,6 +97,22 @@ ALLOW = {
     ("util.py", "document_stmts", "ast.gen_attrs(ast.metaattrs, decl, dict(dimension=True, struct_member=True))"):
         "fills the local list decl with attribute text; does not modify ast",
 }
+# Format fields allowed inside comment templates: generated names (identifiers).
+SAFE_FIELDS = {"C_name", "F_name_impl", "F_C_name"}
+# Terminal names of dynamic operands allowed in comment templates, with the reason.
+SAFE_DYNAMIC = {
+    "gen_decl": "declaration printed from the parsed AST, tokens joined by blanks; tabs only with continuation=True (checked: keyword absent)",
+    "declgen": "node.ast.gen_decl() saved by generate.py",
+    "join": "' - '.join(generated) / ''.join(decl): generated-suffix names, printed attributes",
+    "stmt0": "statement name (underscore-joined identifiers)", "stmt1": "statement name",
+    "name": "statement / node / splicer name (identifier)", "nodename": "node kind", "splicer_path": "dotted identifiers",
+    "category": "key of a fixed list of three literals", "fname": "output file name", "key": "interface name (identifier)",
+    "F_derived_name": "generated name", "PY_PyObject": "generated name", "PY_struct_array_descr_create": "generated name",
+    "_function_index": "integer", "prefix": "literal argument of the local helper add_text",
+    "lines": "user text after sanitising (checked: the function replaces TAB and FF and splits at newlines)",
+    "line": "element of lines",
+}
+
 ALLOW_USE = {
     # __NOTICE__ entry of the JSON dump (<library>.json), a log of the run, not a wrapper source
     ("main.py", "dump_jsonfile"): "JSON dump of the run only",
@@ -157,6 +179,7 @@ class FileScan:
         self.clist = []     # (line, cls, text)
         self.fdec = []      # (line, cls, text)   appends to lists that decide whether a file is written
         self.wv = []        # (line, cls, text)   reads of config.write_version
+        self.dyn = []       # (line, cls, text)   dynamic parts of comment templates
         self.decision = set()
         self.aliases = {}   # (func node, name) -> opt
 
@@ -253,6 +276,86 @@ class FileScan:
     def is_comment_list(e):
         name = e.id if isinstance(e, ast.Name) else e.attr if isinstance(e, ast.Attribute) else ""
         return name.startswith("stmts_comments")
+
+    # ---------------------------------------------------------------- dynamic parts of comment templates
+    def _sanitises(self, func):
+        """func (or the function enclosing a nested helper) replaces TAB and FF by blanks and splits at newlines"""
+        got = set()
+        for n in ast.walk(func):
+            if isinstance(n, ast.Call) and isinstance(n.func, ast.Attribute) and n.args and isinstance(n.args[0], ast.Constant):
+                if n.func.attr == "replace" and n.args[0].value in ("\t", "\f"):
+                    got.add(n.args[0].value)
+                if n.func.attr == "split" and n.args[0].value == "\n":
+                    got.add("\n")
+        return got == {"\t", "\f", "\n"}
+
+    def _terminal(self, e, func):
+        while isinstance(e, ast.Subscript):
+            e = e.value
+        if isinstance(e, ast.Call):
+            f = e.func
+            nm = f.attr if isinstance(f, ast.Attribute) else f.id if isinstance(f, ast.Name) else None
+            if nm == "gen_decl" and any(k.arg == "continuation" for k in e.keywords):
+                return "gen_decl(continuation)"
+            return nm
+        if isinstance(e, ast.Attribute):
+            return e.attr
+        if isinstance(e, ast.Name):
+            # a local assigned only from calls: the called method's name
+            srcs = [n.value for n in ast.walk(func) if isinstance(n, ast.Assign) and len(n.targets) == 1
+                    and isinstance(n.targets[0], ast.Name) and n.targets[0].id == e.id]
+            if srcs and all(isinstance(v, ast.Call) for v in srcs):
+                names = {self._terminal(v, func) for v in srcs}
+                if len(names) == 1 and names <= {"gen_decl", "join"}:
+                    return names.pop()
+            return e.id
+        return None
+
+    def dynamic_parts(self, e, st, func, template=False):
+        """rows for the dynamic parts of the comment expression e"""
+        def row(cls, what):
+            self.dyn.append((st.lineno, cls, "%s  in  %s" % (what, ast.unparse(st).split("\n")[0][:70])))
+
+        def part(x):
+            if self.is_leader_start(x):
+                return
+            if isinstance(x, ast.Constant):
+                if isinstance(x.value, str) and any(c in x.value for c in "\t\f\r"):
+                    row("OTHER", "literal with TAB/FF/CR")
+                return
+            if isinstance(x, ast.BinOp) or (isinstance(x, ast.Call) and isinstance(x.func, ast.Attribute)
+                                            and x.func.attr == "format" and isinstance(x.func.value, ast.Constant)):
+                return self.dynamic_parts(x, st, func)
+            t = self._terminal(x, func)
+            ok = t in SAFE_DYNAMIC
+            if ok and t in ("lines", "line"):
+                host = func
+                ok = self._sanitises(host) or self._sanitises(getattr(host, "_parent", host))
+            row("comment-append" if ok else "OTHER", "operand " + (t or ast.unparse(x)[:30]))
+
+        if isinstance(e, ast.Constant) and isinstance(e.value, str):
+            if any(c in e.value for c in "\t\f\r"):
+                row("OTHER", "literal with TAB/FF/CR")
+            if template:
+                import re as _re
+                for fld in _re.findall(r"\{(\w+)\}", e.value):
+                    row("comment-append" if fld in SAFE_FIELDS else "OTHER", "format field {%s}" % fld)
+            return
+        if isinstance(e, ast.BinOp) and isinstance(e.op, ast.Add):
+            part(e.left)
+            part(e.right)
+            return
+        if isinstance(e, ast.BinOp) and isinstance(e.op, ast.Mod):
+            part(e.left)
+            for a in (e.right.elts if isinstance(e.right, ast.Tuple) else [e.right]):
+                part(a)
+            return
+        if isinstance(e, ast.Call) and isinstance(e.func, ast.Attribute) and e.func.attr == "format":
+            part(e.func.value)
+            for a in e.args:
+                part(a)
+            return
+        part(e)
 
     # ---------------------------------------------------------------- lists whose emptiness is tested
     @staticmethod
@@ -411,16 +514,22 @@ class FileScan:
             if opt != "emitter":
                 self.check_decision(st, func)
             if isinstance(f, ast.Attribute) and f.attr in ("append", "insert") and c.args:
+                if self.cexpr(c.args[-1]):
+                    self.dynamic_parts(c.args[-1], st, func)
                 return row("comment-append" if self.cexpr(c.args[-1]) else "OTHER")
             if isinstance(f, ast.Attribute) and f.attr == "extend" and len(c.args) == 1:
                 a = c.args[0]
                 if self.is_comment_list(a):
                     return row("comment-list")
                 if isinstance(a, ast.List) and all(self.cexpr(x) for x in a.elts):
+                    for x in a.elts:
+                        self.dynamic_parts(x, st, func)
                     return row("comment-append")
                 return row("OTHER")
             name = f.attr if isinstance(f, ast.Attribute) else f.id if isinstance(f, ast.Name) else None
             if name == "append_format" and len(c.args) == 3:
+                if self.cexpr(c.args[1]):
+                    self.dynamic_parts(c.args[1], st, func, template=True)
                 return row("comment-append" if self.cexpr(c.args[1]) else "OTHER")
             if name in EMITTERS or name in local_defs:
                 return row("emitter")
@@ -622,6 +731,13 @@ def render(scans):
         for (line, cls, text) in s.wv:
             rows.append("  (%d, %d, %d)" % (fi, line, CLS[cls]) + ",   -- %s: %s" % (s.fname, text))
     out += _strip_last_comma(rows)
+    out += ["]", "", "/-- (file, line, class) of every dynamic part spliced into an option-guarded comment template -/",
+            "def commentDynamicParts : List (Nat × Nat × Nat) := ["]
+    rows = []
+    for fi, s in enumerate(scans):
+        for (line, cls, text) in s.dyn:
+            rows.append("  (%d, %d, %d)" % (fi, line, CLS[cls]) + ",   -- %s: %s" % (s.fname, text))
+    out += _strip_last_comma(rows)
     out += ["]", "", "end Shroud.Gen.Guards", ""]
     return "\n".join(out)
 
@@ -651,7 +767,9 @@ def regenerate(repo=None):
               + [("%s:%d" % (s.fname, r[1]), r[0], "use: " + r[3]) for s in scans for r in s.uses if r[2] == "OTHER"]
               + [("%s:%d" % (s.fname, r[0]), "comment-list", r[2]) for s in scans for r in s.clist if r[1] == "OTHER"]
               + [("%s:%d" % (s.fname, r[0]), "file-decision-list", r[2]) for s in scans for r in s.fdec if r[1] == "OTHER"]
-              + [("%s:%d" % (s.fname, r[0]), "write_version-read", r[2]) for s in scans for r in s.wv if r[1] == "OTHER"],
+              + [("%s:%d" % (s.fname, r[0]), "write_version-read", r[2]) for s in scans for r in s.wv if r[1] == "OTHER"]
+              + [("%s:%d" % (s.fname, r[0]), "comment-dynamic-part", r[2]) for s in scans for r in s.dyn if r[1] == "OTHER"],
+        comment_dynamic_parts=sum(len(s.dyn) for s in scans),
         write_version_reads=sum(len(s.wv) for s in scans),
         file_decision_appends={k: sum(1 for s in scans for r in s.fdec if r[1] == k) for k in ("comment-append", "allow", "OTHER")},
         allow=sum(1 for s in scans for r in s.rows if r[2] == "allow") + sum(1 for s in scans for r in s.uses if r[2] == "allow"),
